@@ -25,7 +25,7 @@ STYLES = [dict(key="long", val="word", group="never"), dict(key="short", val="gl
 
 
 def cases(tier):
-    return 6000 if tier == "quick" else 150000
+    return 12000 if tier == "quick" else 150000
 
 
 def gen_case(seed, idx, tier):
